@@ -233,7 +233,8 @@ func Enumerate(fs []Factor, cap int, reducedBig bool) ([][]int, Plan) {
 	}
 	plan.PairwiseRows = len(pw)
 	// small scope: the full product over the first lim[i] alternatives of factor i; limits grow round-robin
-	// (largest factors first) while the product fits the remaining budget; alternatives holding big slices
+	// (first over the variable-length factors, then over the scalar ones; largest factors first) while the
+	// product fits the remaining budget; alternatives holding big slices
 	// (they come last in every factor) stay out of the small scope and are covered by the all-pairs rows only.
 	nb := make([]int, len(fs))
 	for i, f := range fs {
@@ -248,11 +249,6 @@ func Enumerate(fs []Factor, cap int, reducedBig bool) ([][]int, Plan) {
 	for i := range lim {
 		lim[i] = 1
 	}
-	order := make([]int, len(fs))
-	for i := range order {
-		order[i] = i
-	}
-	sort.SliceStable(order, func(x, y int) bool { return nb[order[x]] > nb[order[y]] })
 	prod := func() int {
 		p := 1
 		for _, l := range lim {
@@ -263,18 +259,28 @@ func Enumerate(fs []Factor, cap int, reducedBig bool) ([][]int, Plan) {
 		}
 		return p
 	}
-	for changed := true; changed; {
-		changed = false
-		for _, i := range order {
-			if lim[i] >= nb[i] {
-				continue
+	// stage 1: variable-length factors (slices, strings) only; stage 2: the scalar factors
+	for stage := 1; stage <= 2; stage++ {
+		var order []int
+		for i, f := range fs {
+			if f.Variable == (stage == 1) {
+				order = append(order, i)
 			}
-			lim[i]++
-			if prod() > cap-len(pw) {
-				lim[i]--
-				continue
+		}
+		sort.SliceStable(order, func(x, y int) bool { return nb[order[x]] > nb[order[y]] })
+		for changed := true; changed; {
+			changed = false
+			for _, i := range order {
+				if lim[i] >= nb[i] {
+					continue
+				}
+				lim[i]++
+				if prod() > cap-len(pw) {
+					lim[i]--
+					continue
+				}
+				changed = true
 			}
-			changed = true
 		}
 	}
 	small := fullRowsLim(lim)
